@@ -127,6 +127,21 @@ func genC18Case(t *rapid.T) *C18Case {
 	}
 	c.Pos = rapid.IntRange(0, k).Draw(t, "urlPos")
 	finishScalar(t, b)
+	if rapid.IntRange(0, 7).Draw(t, "callFn") == 0 {
+		// a function given for the call under a name the validators implement themselves (or a built-in's name):
+		// every entry point must resolve the name to it
+		name := rapid.SampledFrom([]string{"required", "required", "phone", "cfn1"}).Draw(t, "callFnName")
+		has := false
+		for _, r := range b.Rules {
+			if k, _, _ := model.ParseItem(r); k == name {
+				has = true
+			}
+		}
+		if !has {
+			b.Rules = append(b.Rules, name)
+		}
+		b.CallFns = []string{name}
+	}
 	if rapid.IntRange(0, 3).Draw(t, "nest") == 0 {
 		b.Nest = rapid.SampledFrom([]int{1, 2, 5, 9, 10, 11, 12, 20, 33, 40}).Draw(t, "nestDepth") // tag carrier: the field's struct lies this deep
 	}
